@@ -74,6 +74,15 @@ func kvMiddleware[V any](
 		l = l.With(zap.Object("predecessor", n.predecessor.Identity()))
 	}
 
+	if n.predecessor == nil {
+		// without a known predecessor the ownership of the key cannot be verified (a lookup
+		// through stale pointers may have routed it here): let the caller retry until Notify
+		// has re-established the predecessor
+		l.Debug("Predecessor unknown, cannot verify ownership")
+		n.kvStaleCount.Inc()
+		return zeroV, chord.ErrKVStaleOwnership
+	}
+
 	if n.surrogate != nil && chord.Between(n.ID(), id, n.surrogate.Identity().GetId(), true) {
 		l.Warn("KV Ownership moved, forwarding to surrogate")
 		n.kvStaleCount.Inc()
